@@ -4667,7 +4667,7 @@ def _inner_worker(a, b, do_conj):
         res += blas_dot(a_data[i], b_data[j])
         # same as res += np.inner(a_data[i].reshape((-1, )), b_data[j].reshape((-1, )))
         # (or with complex conj if 'do_conj')
-    return res
+    return res_dtype.type(res)
 
 
 def _without_zero_size_blocks(a):
